@@ -69,7 +69,7 @@ def run(ctx):
     thorough = ctx.tier == "thorough"
     if ctx.replay:
         rp = json.load(open(ctx.replay))["payload"]
-        if rp.get("kind") == "race" or rp.get("case", {}).get("family") == "cmdrace":
+        if rp.get("kind") == "race" or str(rp.get("case", {}).get("family", "")).startswith("cmdrace"):
             ctx.build(race=True)
             race_part(ctx, False)   # timing/goroutine cases cannot be re-driven event by event: re-run the tier
             return
